@@ -377,9 +377,9 @@ def c13(prop, tier, seed):
              ops=["push", "cpush", "truncate", "commit", "rollback", "rollback_before", "fault", "reimport"],
              replays=[("pco", "u32", 1), ("lz4", "u32", 1), ("zstd", "u32", 1)]),
         # refused rollbacks while edits are pending (no usable record for the current stamp), then commit / rollback again
-        dict(kind="raw", K=2, PP=2, MaxLen=2, MaxStamp=3, Depth=q(tier, 8, 9), histk=q(tier, 1, 2),
+        dict(kind="raw", K=2, PP=2, MaxLen=2, MaxStamp=3, Depth=q(tier, 8, 9), histk=q(tier, 3, 4),
              ops=["push", "commit", "rollback", "rb_refused", "fault"], replays=[("bytes", "u32", 1)]),
-        dict(kind="cmp", K=2, PP=2, MaxLen=2, MaxStamp=3, Depth=q(tier, 8, 9), histk=q(tier, 1, 2),
+        dict(kind="cmp", K=2, PP=2, MaxLen=2, MaxStamp=3, Depth=q(tier, 8, 9), histk=q(tier, 3, 4),
              ops=["push", "commit", "rollback", "rb_refused", "fault"], replays=[("pco", "u32", 1)]),
     ], "non-trivial = length >= 3 and at least one further operation after a refusal-prone call (rollback, re-import)", VEC_ASSUME)
     return merge([raw, vec])
